@@ -26,6 +26,104 @@ Definition show_row (r : row) : pstr :=
   show_bool (r_self_safe r) ++ show_bool (r_safe r) ++ show_bool (r_last r).
 Definition show_rows (rs : list row) : pstr := join [10%N] (map show_row rs).
 
+(* ---- _visualize._get_node_text: the text of a row is f"{key}: {label}" with every character c such that
+   `not c.isprintable()` replaced by c.encode("unicode_escape").decode("ascii").
+
+   str.isprintable is modelled by the decidable predicate `isprintable` on code points, given by the table
+   `printable_ranges`.  The model is EXACT (isprintable c = true  <->  chr(c).isprintable() in CPython, Unicode 14 / 15) on the
+   charset `exact_charset`:
+       U+0000-U+024F   (C0 controls, ASCII, DEL, C1 controls, Latin-1, Latin Extended-A/B: not printable are 0-31, 127-160, 173)
+       U+0370-U+0377, U+037A-U+037F, U+0384-U+038A, U+038C, U+038E-U+03A1, U+03A3-U+03FF   (the assigned Greek and Coptic)
+       U+1680                                   (OGHAM SPACE MARK, Zs: not printable)
+       U+2000-U+2064, U+2066-U+206F             (General Punctuation: printable are U+2010-U+2027 and U+2030-U+205E only;
+                                                 spaces, ZW(N)J, LRM/RLM, LINE / PARAGRAPH SEPARATOR, bidi controls are not)
+       U+2190-U+21FF, U+2500-U+257F             (Arrows, Box Drawing -- the tree-drawing characters live here: printable)
+       U+3000                                   (IDEOGRAPHIC SPACE, Zs: not printable)
+       U+4E00-U+9FA5                            (CJK Unified Ideographs of Unicode 1.1: printable)
+       U+D800-U+DFFF, U+E000-U+F8FF             (surrogates, private use: not printable)
+       U+FEFF, U+FFF9-U+FFFF                    (BOM, interlinear annotation controls, noncharacters: not printable;
+                                                 U+FFFC, U+FFFD printable)
+       U+1F600-U+1F64F                          (Emoticons: printable)
+       U+E0001, U+E0020-U+E007F                 (tag characters, Cf: not printable)
+       U+F0000-U+10FFFF                         (supplementary private use planes and their noncharacters: not printable)
+   and CONSERVATIVE elsewhere: a code point outside every range of `printable_ranges` is treated as not printable (shown
+   escaped), whatever Python thinks of it.  In particular every code point str.splitlines splits on (`is_linebreak`) and every
+   surrogate lies in the exact charset and is not printable.  The generators of harness/props/c13.py draw characters from the
+   exact charset only; the harness checks both tables against str.isprintable of the interpreter that runs skops on every
+   run, and keeps a case out of the text comparison when one of its texts leaves the charset. *)
+Definition printable_ranges : list (N * N) :=
+  [(32, 126); (161, 172); (174, 591); (880, 887); (890, 895); (900, 906); (908, 908); (910, 929); (931, 1023);
+   (8208, 8231); (8240, 8286); (8592, 8703); (9472, 9599); (19968, 40869); (65532, 65533); (128512, 128591)]%N.
+Definition exact_charset : list (N * N) :=
+  [(0, 591); (880, 887); (890, 895); (900, 906); (908, 908); (910, 929); (931, 1023); (5760, 5760); (8192, 8292); (8294, 8303);
+   (8592, 8703); (9472, 9599); (12288, 12288); (19968, 40869); (55296, 63743); (65279, 65279); (65529, 65535);
+   (128512, 128591); (917505, 917505); (917536, 917631); (983040, 1114111)]%N.
+Definition in_ranges (c : N) (rs : list (N * N)) : bool :=
+  existsb (fun r : N * N => N.leb (fst r) c && N.leb c (snd r)) rs.
+Definition isprintable (c : N) : bool := in_ranges c printable_ranges.
+
+(* the code points str.splitlines splits on: \n \r \v \f FS GS RS NEL LINE SEPARATOR PARAGRAPH SEPARATOR *)
+Definition linebreaks : list N := [10; 11; 12; 13; 28; 29; 30; 133; 8232; 8233]%N.
+Definition is_linebreak (c : N) : bool := existsb (N.eqb c) linebreaks.
+Definition is_surrogate (c : N) : bool := N.leb 55296 c && N.leb c 57343.
+
+(* lowercase hexadecimal, n digits, most significant first *)
+Definition hexdig (d : N) : N := if N.ltb d 10 then (48 + d)%N else (87 + d)%N.
+Fixpoint hexn (n : nat) (c : N) : pstr :=
+  match n with
+  | O => []
+  | S n' => hexn n' (c / 16)%N ++ [hexdig (c mod 16)%N]
+  end.
+
+(* c.encode("unicode_escape").decode("ascii") for a character that is not printable (a printable backslash stays as it is) *)
+Definition escape_char (c : N) : pstr :=
+  if isprintable c then [c]
+  else if N.eqb c 9 then [92; 116]%N                     (* \t *)
+  else if N.eqb c 10 then [92; 110]%N                    (* \n *)
+  else if N.eqb c 13 then [92; 114]%N                    (* \r *)
+  else if N.ltb c 256 then 92%N :: 120%N :: hexn 2 c     (* \xNN *)
+  else if N.ltb c 65536 then 92%N :: 117%N :: hexn 4 c   (* \uNNNN *)
+  else 92%N :: 85%N :: hexn 8 c.                         (* \UNNNNNNNN *)
+Definition escape_text (t : pstr) : pstr := flat_map escape_char t.
+
+(* _get_node_text(node, label) *)
+Definition node_text (tag_unsafe : pstr) (r : row) : pstr :=
+  escape_text (r_key r ++ s ": " ++ label [] tag_unsafe r).
+
+(* inverse of escape_text on texts without backslash (used to state that the escape loses nothing there) *)
+Definition hexval1 (d : N) : N := if N.ltb d 58 then (d - 48)%N else (d - 87)%N.
+Definition hexval (l : pstr) : N := fold_left (fun a d => (a * 16 + hexval1 d)%N) l 0%N.
+Fixpoint unescape_text (l : pstr) : pstr :=
+  match l with
+  | [] => []
+  | c :: l1 =>
+      if N.eqb c 92 then
+        match l1 with
+        | [] => [c]
+        | k :: l2 =>
+            if N.eqb k 116 then 9%N :: unescape_text l2
+            else if N.eqb k 110 then 10%N :: unescape_text l2
+            else if N.eqb k 114 then 13%N :: unescape_text l2
+            else if N.eqb k 120 then
+              match l2 with
+              | a :: b :: l3 => hexval [a; b] :: unescape_text l3
+              | _ => c :: unescape_text l1
+              end
+            else if N.eqb k 117 then
+              match l2 with
+              | a :: b :: d :: e :: l3 => hexval [a; b; d; e] :: unescape_text l3
+              | _ => c :: unescape_text l1
+              end
+            else if N.eqb k 85 then
+              match l2 with
+              | a :: b :: d :: e :: f :: g :: h :: i :: l3 => hexval [a; b; d; e; f; g; h; i] :: unescape_text l3
+              | _ => c :: unescape_text l1
+              end
+            else c :: unescape_text l1
+        end
+      else c :: unescape_text l1
+  end.
+
 (* the fallback printer of pretty_print_tree (rich not installed), line by line *)
 Definition seg_last : pstr := [32; 32; 32; 32]%N.
 Definition seg_mid : pstr := [9474; 32; 32; 32]%N.          (* "│   " *)
@@ -39,24 +137,29 @@ Fixpoint drop_n {A} (n : nat) (l : list A) : list A :=
   | S _, [] => []
   end.
 
-(* prefix = stack of is_last flags, innermost first *)
+(* the tree-drawing part of a line: prefix = stack of is_last flags, innermost first *)
+Definition line_prefix (prefix1 : list bool) (last : bool) : pstr :=
+  flat_map (fun b : bool => if b then seg_last else seg_mid) (rev prefix1)
+  ++ (if last then elbow_last else elbow_mid) ++ [32%N].
+
 Fixpoint print_rest (tag_unsafe : pstr) (prev : nat) (prefix : list bool) (rows : list row) : list pstr :=
   match rows with
   | [] => []
   | r :: rs =>
       (* level_diff + 1 = prev - level + 1 truncations *)
       let prefix1 := drop_n (S prev - r_level r) prefix in
-      let line := flat_map (fun b : bool => if b then seg_last else seg_mid) (rev prefix1)
-                  ++ (if r_last r then elbow_last else elbow_mid)
-                  ++ 32%N :: r_key r ++ s ": " ++ label [] tag_unsafe r in
+      let line := line_prefix prefix1 (r_last r) ++ node_text tag_unsafe r in
       line :: print_rest tag_unsafe (r_level r) (r_last r :: prefix1) rs
   end.
 
-Definition print_tree (tag_unsafe : pstr) (rows : list row) : pstr :=
+(* one line per row: the root row bare, the others behind their tree-drawing prefix *)
+Definition print_lines (tag_unsafe : pstr) (rows : list row) : list pstr :=
   match rows with
   | [] => []
-  | r :: rs => join [10%N] ((r_key r ++ s ": " ++ label [] tag_unsafe r) :: print_rest tag_unsafe (r_level r) [] rs)
+  | r :: rs => node_text tag_unsafe r :: print_rest tag_unsafe (r_level r) [] rs
   end.
+
+Definition print_tree (tag_unsafe : pstr) (rows : list row) : pstr := join [10%N] (print_lines tag_unsafe rows).
 
 
 Definition show_ev (e : tev) : pstr :=
